@@ -280,29 +280,37 @@ def check_type(prog, ty, tag, known, timeout_ms=30000):
         return [dict(base, query="encode parse", verdict="error", detail=traceback.format_exc()[-600:])]
     build_s = round(time.time() - t0, 2)
     res = []
+    outside_doc = z3.Not(z3.InRe(sv, rx))
 
     def solve(name, extra, judge, kf):
         s = z3.Solver()
         s.set("timeout", timeout_ms)
         s.add(*m.constraints)
-        s.add(*[B(x) for x in extra])
+        s.add(*[B(x) for x in extra if not (x is outside_doc and any(k.get("type") == ty and k.get("kf") == kf and k.get("tolerated") for k in known))])
         # behaviour already recorded as a known finding is excluded, so that anything else is still reported
         tolerated = [k for k in known if k.get("type") == ty and k.get("kf") == kf and k.get("tolerated")]
-        for k in tolerated:
-            s.add(z3.Not(z3.InRe(sv, compile_format(k["tolerated"]))))
+        if tolerated and kf == "accepts-outside-format":
+            # one membership in the union (documented or tolerated) instead of several negated memberships
+            extra = [x for x in extra if x is not outside_doc] + [z3.Not(z3.InRe(sv, z3.Union(rx, *[compile_format(k["tolerated"]) for k in tolerated])))]
+            s.add(*[B(x) for x in extra[-1:]])
         t1 = time.time()
         r = s.check()
         if r == z3.unknown and kf == "accepts-outside-format":
             # not answered for strings of arbitrary length: probe the lengths just outside the documented bounds
             longest = sum(int(n) for n in re.findall(r"(\d+)[!~]?[a-zA-Z]", fmt)) + len(re.sub(r"\d+[!~]?[a-zA-Z]|\[|\]", "", fmt))
-            for L in (longest + 1, longest + 2, 0, 1):
+            order = [longest + 1, longest + 2, 0, 1] + [L for L in range(2, 61) if L not in (longest + 1, longest + 2)]
+            verdicts = []
+            for L in order:          # the input is at most 60 characters long: one query per length decides the question
                 s.push()
                 s.add(z3.Length(sv) == L)
                 r2 = s.check()
+                verdicts.append(r2)
                 if r2 == z3.sat:
                     r = r2
                     break
                 s.pop()
+            if r != z3.sat and all(v == z3.unsat for v in verdicts):
+                r = z3.unsat
         rec = dict(base, query=name, verdict=str(r), time_s=round(time.time() - t1, 2), build_s=build_s, kf=kf, tolerated=[k["key"] for k in tolerated])
         if r == z3.sat:
             text = structsym._zstr(s.model().eval(sv, model_completion=True))
@@ -323,7 +331,7 @@ def check_type(prog, ty, tag, known, timeout_ms=30000):
             return "%s::parse(%r) panics: %s" % (ty, text, str(real.get("panic"))[:200])
         return None
     if ty not in PANIC_ONLY:
-        solve("accepted content has the documented format %s" % fmt, [r1.ok, z3.Not(z3.InRe(sv, rx))], judge_accept, "accepts-outside-format")
+        solve("accepted content has the documented format %s" % fmt, [r1.ok, outside_doc], judge_accept, "accepts-outside-format")
     obs = [(g, c, w) for g, c, w in m.obligations]
     if obs:
         solve("no panic in parse (%d slice / unwrap obligations)" % len(obs), [Or(*[And(g, Not(c)) for g, c, w in obs])], judge_panic, "panic")
